@@ -76,6 +76,13 @@ type Machine struct {
 	natives    map[string]interface{} // per-path engine objects (stores, ctx)
 	symDecides int
 	guards     []*Term // active vp.SetIf conditions (guarded store writes)
+	pcSet      map[*Term]bool
+	twice      bool    // 2-safety mode: the entry is executed twice per path
+	run        int
+	nInputs1   int
+	inputIdx   int
+	evIdx      int
+	events1    []c20event
 	marsh      []*marshalled
 	hexNib     map[*Term]*Term // hex character term -> the nibble it encodes
 	curFn      string
@@ -99,6 +106,15 @@ func (m *Machine) addPC(c *Term) {
 		return
 	}
 	m.pc = append(m.pc, c)
+	if m.pcSet == nil {
+		m.pcSet = map[*Term]bool{}
+	}
+	m.pcSet[c] = true
+	if c.op == OpAnd {
+		for _, a := range c.args {
+			m.pcSet[a] = true
+		}
+	}
 	if m.sol != nil {
 		m.sol.Assert(m.tb, c)
 	}
@@ -133,6 +149,14 @@ func (m *Machine) decide(c *Term) bool {
 	}
 	if m.isTemplate || m.sol == nil {
 		panic(unsupported("symbolic branch in a concrete-only context"))
+	}
+	// a condition that is literally part of the path condition is decided without the solver; the
+	// decision is NOT recorded (it is a function of earlier decisions, so replays stay aligned)
+	if m.pcSet[c] {
+		return true
+	}
+	if m.pcSet[m.tb.Not(c)] {
+		return false
 	}
 	m.symDecides++
 	idx := len(m.decisions)
